@@ -111,7 +111,7 @@ def run(prop, replay=None):
     cfg = "_pg.cfg"
     with open(os.path.join(SPEC, cfg), "w") as f:
         f.write("CONSTANTS MaxLen = %d\nNKeys = 4\nINIT Init\nNEXT Next\nINVARIANT Emit\nCHECK_DEADLOCK FALSE\n" % L)
-    r = run_tlc(SPEC, "ParGen", cfg, "pargen", workers=1, timeout=1800, simulate=(40 if quick else 600), depth=L + 1, tlc_seed=vlib.seed())
+    r = run_tlc(SPEC, "ParGen", cfg, "pargen", workers=1, timeout=1800, simulate=(40 if quick else 100), depth=L + 1, tlc_seed=vlib.seed())
     os.remove(os.path.join(SPEC, cfg))
     if r.error:
         raise vlib.ToolError("ParGen: " + r.error)
